@@ -22,7 +22,7 @@ CONDITIONS = ["enable_expansion", "enable_none_rejected", "enable_accepted", "pr
 
 def env(maxlen):
     e = dict(os.environ)
-    e["PYTHONPATH"] = ROOT + ":" + os.path.join(ROOT, ".deps")
+    e["PYTHONPATH"] = os.environ.get("PYTHONPATH", "") + ":" + ROOT + ":" + os.path.join(ROOT, ".deps")
     e["VF_C19_MAXLEN"] = str(maxlen)
     e["PYTHONHASHSEED"] = "0"
     return e
